@@ -23,6 +23,9 @@ hwloc__xml_verbose(void)
   static int verbose = 0;
   if (!checked) {
     const char *env = getenv("HWLOC_XML_VERBOSE");
+#ifdef HWLOC_VERIF
+    if (hwloc_verif_event) hwloc_verif_event("envcache_write", 1, 0); /* process-wide cache of an environment variable */
+#endif
     if (env)
       verbose = atoi(env);
     checked = 1;
@@ -37,6 +40,9 @@ hwloc_nolibxml_import(void)
   static int nolibxml = 0;
   if (!checked) {
     const char *env = getenv("HWLOC_LIBXML");
+#ifdef HWLOC_VERIF
+    if (hwloc_verif_event) hwloc_verif_event("envcache_write", 2, 0); /* process-wide cache of an environment variable */
+#endif
     if (env) {
       nolibxml = !atoi(env);
     } else {
@@ -56,6 +62,9 @@ hwloc_nolibxml_export(void)
   static int nolibxml = 0;
   if (!checked) {
     const char *env = getenv("HWLOC_LIBXML");
+#ifdef HWLOC_VERIF
+    if (hwloc_verif_event) hwloc_verif_event("envcache_write", 3, 0); /* process-wide cache of an environment variable */
+#endif
     if (env) {
       nolibxml = !atoi(env);
     } else {
